@@ -179,7 +179,7 @@ def grid(comp, rows, n, seed):
     """a deterministic concrete pixel grid with the extreme values of the component type sprinkled in"""
     special = dict(u16=["0", "65535", "1", "32768", "65534", "255", "256"],
                    i32=["0", "i32::MAX", "i32::MIN", "-1", "1", "1000000007", "-2147483647"],
-                   f32=["0.0", "-0.0", "1.0", "f32::MAX", "f32::MIN_POSITIVE", "1.0e-45", "-3.75", "0.1", "65535.0", "-1.0e30", "0.33333334"])[comp]
+                   f32=["0.0", "-0.0", "1.0", "255.0", "-3.75", "0.1", "0.33333334", "0.001"])[comp]      # huge / non-finite values only in SPECIAL_F32: they would mask the small terms
     out, x = [], seed
     for r in range(rows):
         row = []
@@ -219,6 +219,8 @@ H("k10_vertical_u16_x2_w2_tail_only",
   "tap table (0.25, 0.75 | -0.1, 1.2) at precision 30, ALL pixel values, arbitrary stale destination",
   "vertical u16 kernel (convolution_by_u16 path) == fx over the source column for every component; result independent of the stale "
   "destination; spare pixel and source untouched; reads in bounds", P_INT)
+# measured: solver 38 s but 300 s wall and 10 GB of kani-driver memory (align_to_mut makes the chunk / tail lengths symbolic: every loop unwinds to the bound)
+HARNESSES[-1]["mem"] = "high"
 # The chunked path: `align_to_mut::<[u16; 16]>` makes the chunk / tail lengths symbolic for CBMC (pointer -> integer), the loops
 # unwind to the bound and symbolic pixels do not finish (> 900 s).  Concrete pixel grid, concrete taps, symbolic stale destination.
 VT32 = "fv_norm32(30, &[(0, &[-107374182, 1288490188])])"
@@ -235,6 +237,8 @@ H("k10_vertical_u16_x4_w5_chunk_and_tail_grid",
   "ONE concrete pixel grid (extreme values included), arbitrary stale destination",
   "vertical u16 kernel == fx for every component of the chunked loop (convolution_by_chunks) and of the tail; x_src carried from the chunk "
   "loop into the tail; spare pixel untouched; reads in bounds", P_INT, tier="thorough")
+# measured: 746 s wall on a loaded machine (symex ~220 s + thousands of incremental SAT calls), CBMC 3.4 GB, kani-driver 23.8 GB (!): isolate
+HARNESSES[-1]["mem"] = "high"
 
 # ------------------------------------------------------------------------------------------------------------------------------
 # floating kernels (i32x1, f32x1..f32x4, vertical_f32): Coefficients built concretely, oracle = the sequential sum in window order.
@@ -396,14 +400,16 @@ def cond_flt(chk):
     return f
 
 
-def add_vert_flt(file, name, pix, comp, nch, dw, unwind, bound, claim, functions_note=None):
+def add_vert_flt(file, name, pix, comp, nch, dw, unwind, bound, claim, one_call=False):
     chk = CHK_F32 if comp == "f32" else CHK_I32
     n = (dw + 1) * nch
     grids = [grid(comp, 3, n, 5 + nch), grid(comp, 3, n, 41 + nch)]
     if comp == "f32":
         grids.pop()
         grids.append("[" + ", ".join("[" + ", ".join(SPECIAL_F32[(i * 3 + r + nch) % len(SPECIAL_F32)] for i in range(n)) + "]" for r in range(3)) + "]")
-    calls = "\n".join("        run(%s, &n, %d);" % (g, o) for (g, o) in ((grids[0], 0), (grids[1], 1)))
+    if one_call:
+        grids = grids[:1]
+    calls = "\n".join("        run(%s, &n, %d);" % (g, o) for (g, o) in (((grids[0], 1),) if one_call else ((grids[0], 0), (grids[1], 1))))
     MODS.append(dict(file=file, name="fv_%s" % name, code=FHEAD + vert_run(pix, comp, nch, dw, "Coefficients", cond_flt(chk)) + """
     #[kani::proof]
     #[kani::unwind(%d)]
@@ -413,7 +419,7 @@ def add_vert_flt(file, name, pix, comp, nch, dw, unwind, bound, claim, functions
 %s
     }
 """ % (unwind, name, coeffs_literal(VW), calls.replace("&n,", "n,"))))
-    H(name, bound + "; weights %s; %d CONCRETE pixel grids (the first with column offset 0, the second with offset 1); arbitrary stale destination" % (VW, len(grids)), claim, P_FLT)
+    H(name, bound + "; weights %s; %s; arbitrary stale destination" % (VW, "ONE concrete pixel grid with column offset 1" if one_call else "2 CONCRETE pixel grids (the first with column offset 0, the second with offset 1)"), claim, P_FLT)
 
 
 add_vert_flt(D + "i32x1/native.rs", "k10_i32x1_vertical_grids", "I32", "i32", 1, 2, 6, "I32 3x3 -> 2x2",
@@ -423,11 +429,13 @@ VF32 = D + "vertical_f32/native.rs"
 add_vert_flt(VF32, "k10_vertical_f32_x3_w3_chunk_and_rest_grids", "F32x3", "f32", 3, 3, 10,
              "F32x3 4x3 -> 3x2 (9 components per row: one 8-component chunk + 1 scalar rest)",
              "vertical f32 kernel == the sequential f64 sum over the source column converted with `as f32`, bit-exact (or both NaN), in the chunked loop "
-             "and in the scalar rest; spare pixel untouched; every destination component assigned; reads in bounds")
+             "and in the scalar rest; spare pixel untouched; every destination component assigned; reads in bounds", one_call=True)
+# measured: kani-driver needs > 10 GB for this harness with two grids (14 GB), CBMC itself 2 GB: one grid, isolated, thorough only
+HARNESSES[-1]["tier"] = "thorough"
+HARNESSES[-1]["mem"] = "high"
 add_vert_flt(VF32, "k10_vertical_f32_x1_w2_rest_only_grids", "F32", "f32", 1, 2, 10,
              "F32 3x3 -> 2x2 (2 components per row: no full chunk, scalar rest only)",
              "vertical f32 kernel (convolution_by_f32 path) == the sequential f64 sum over the source column converted with `as f32`; spare pixel untouched")
-HARNESSES[-1]["tier"] = "thorough"
 
 FUNCTIONS = [dict(file=D + "%s/native.rs" % t, fn="horiz_convolution") for t in ("u8x2", "u8x3", "u16x2", "u16x3", "u16x4")] + [
     dict(file=VU16, fn="vert_convolution"), dict(file=VU16, fn="convolution_by_u16"), dict(file=VU16, fn="convolution_by_chunks")] + [
